@@ -2,10 +2,14 @@ package checks
 
 import (
 	"crypto"
+	"crypto/ecdsa"
+	"crypto/elliptic"
+	"crypto/rsa"
 	"crypto/x509"
 	"encoding/base64"
 	"encoding/json"
 	"fmt"
+	"math/big"
 	"sync"
 	"time"
 
@@ -341,6 +345,65 @@ func signWith(media string, signer signature.Signer, scheme signature.SigningSch
 	return
 }
 
+// c02DerivedKeys: private keys *derived from* the leaf key that are not the leaf's key: an RSA key with the leaf's modulus but another
+// exponent pair (a fully valid key), an ECDSA key that carries the leaf's coordinates on another curve. NewLocalSigner refuses them.
+func c02DerivedKeys(c *mc.Ctx) {
+	leafName := []string{"rsa2048-b", "rsa3072-a", "p256-e", "p384-c"}[c.ChooseFree("leaf-key", 4)]
+	variant := c.ChooseFree("derived-key", 2)
+	leaf := pki.K(leafName)
+	chain := chainFor(leafName)
+	var priv crypto.PrivateKey
+	desc := ""
+	switch k := leaf.Priv.(type) {
+	case *rsa.PrivateKey:
+		e2 := 3
+		if variant == 1 {
+			e2 = 17
+		}
+		one := big.NewInt(1)
+		phi := new(big.Int).Mul(new(big.Int).Sub(k.Primes[0], one), new(big.Int).Sub(k.Primes[1], one))
+		for new(big.Int).GCD(nil, nil, big.NewInt(int64(e2)), phi).Cmp(one) != 0 {
+			e2 += 2
+		}
+		d2 := new(big.Int).ModInverse(big.NewInt(int64(e2)), phi)
+		nk := &rsa.PrivateKey{PublicKey: rsa.PublicKey{N: new(big.Int).Set(k.N), E: e2}, D: d2, Primes: []*big.Int{new(big.Int).Set(k.Primes[0]), new(big.Int).Set(k.Primes[1])}}
+		nk.Precompute()
+		if err := nk.Validate(); err != nil {
+			panic(mc.HarnessError{Msg: "derived RSA key invalid: " + err.Error()})
+		}
+		priv, desc = nk, fmt.Sprintf("same modulus, public exponent %d", e2)
+	case *ecdsa.PrivateKey:
+		other := elliptic.P384()
+		if k.Curve == elliptic.P384() {
+			other = elliptic.P521()
+		}
+		if variant == 1 {
+			other = elliptic.P224()
+		}
+		priv, desc = &ecdsa.PrivateKey{PublicKey: ecdsa.PublicKey{Curve: other, X: new(big.Int).Set(k.X), Y: new(big.Int).Set(k.Y)}, D: new(big.Int).Set(k.D)}, "same coordinates on "+other.Params().Name
+	}
+	c.Statef("leaf=%s derived=%s", leaf.Kind, desc)
+	var ls signature.LocalSigner
+	var err error
+	var pan any
+	func() {
+		defer func() {
+			if r := recover(); r != nil {
+				pan = r
+			}
+		}()
+		ls, err = signature.NewLocalSigner(pki.X509s(chain), priv)
+	}()
+	c.Outcome(fmt.Sprintf("derived-key-signer-constructed=%v", err == nil && pan == nil && ls != nil))
+	if pan != nil {
+		c.Fail("C02 panic in NewLocalSigner", "%v", pan)
+		return
+	}
+	if err == nil && ls != nil {
+		c.Fail("C02 local signer constructed with a key that is not the leaf's (derived from it)", "leaf %s, private key: %s", leafName, desc)
+	}
+}
+
 func c02LocalBody(c *mc.Ctx, media string) {
 	names := pki.KeyNames()
 	leafName := c02LeafKeys[c.ChooseFree("leaf-key", len(c02LeafKeys))]
@@ -416,6 +479,9 @@ func c02Scenarios(tier mc.Tier) []mc.Scenario {
 		for _, sch := range schemes {
 			sch := sch
 			out = append(out, mc.Scenario{Name: "C02-verify-" + mediaShort(m) + "-" + sch, Bound: -1, Body: func(c *mc.Ctx) { c02VerifyBody(c, m, sch) }, Params: map[string]string{"format": m, "path": "verify", "scheme": sch}})
+		}
+		if m == envenc.MediaJWS {
+			out = append(out, mc.Scenario{Name: "C02-local-signer-keys-derived-from-the-leaf-key", Bound: -1, Expect: 8, Body: c02DerivedKeys, Params: map[string]string{"path": "NewLocalSigner", "keys": "RSA same modulus other exponent; ECDSA same coordinates other curve"}})
 		}
 		out = append(out, mc.Scenario{Name: "C02-remote-signer-unstable-keyspec-" + mediaShort(m), Bound: -1, Expect: 4 * 6 * 2, Body: func(c *mc.Ctx) { c02UnstableSpec(c, m) }, Params: map[string]string{"format": m, "path": "remote signer whose KeySpec answer changes after k queries"}})
 		out = append(out, mc.Scenario{Name: "C02-remote-signer-" + mediaShort(m), Bound: -1, Expect: int64(2 * len(c02LeafKeys) * len(c02SpecTypes) * len(c02SpecSizes)), Body: func(c *mc.Ctx) { c02RemoteBody(c, m) }, Params: map[string]string{"format": m, "path": "remote signer"}})
